@@ -362,6 +362,9 @@ func (v *Validator) DecodeRLP(s *rlp.Stream) error {
 	if err := s.Decode(&r); err != nil {
 		return err
 	}
+	if r.Expelled > 1 {
+		return fmt.Errorf("rlp: invalid expelled flag %d of a validator record", r.Expelled)
+	}
 
 	v.Name = r.Name
 	v.OperatorAddress = r.OperatorAddress
@@ -1035,6 +1038,11 @@ func (index *ValidatorIndex) DecodeRLP(s *rlp.Stream) error {
 	var list addressList
 	if err := s.Decode(&list); err != nil {
 		return err
+	}
+	for i := 1; i < len(list); i++ {
+		if bytes.Compare(list[i-1].Bytes(), list[i].Bytes()) >= 0 {
+			return fmt.Errorf("rlp: validator index is not strictly ascending")
+		}
 	}
 	for _, addr := range list {
 		index.data.Store(addr, nil)
